@@ -142,6 +142,34 @@ def artefact_id(art):
     return hashlib.sha1(s.encode()).hexdigest()[:12]
 
 
+def dev_split(task):
+    """Split a dev-mode task into independent tasks by the position/value of the
+    first deviation (plus the deviation-free history).  The union of the parts is
+    exactly the original set of histories, each explored once."""
+    default = task["default"]
+    menu = task["menu"]
+    per_pos = bool(task.get("menu_per_pos"))
+    out = []
+    base = dict(task)
+    t0 = dict(base)
+    t0["k"] = 0
+    t0["label"] = task.get("label", "") + "|nodev"
+    out.append(t0)
+    if task["k"] <= 0:
+        return out
+    for i in range(len(default)):
+        alts = menu[i] if per_pos else menu
+        for a in alts:
+            if a == default[i]:
+                continue
+            t = dict(base)
+            t["prefix"] = list(default[:i]) + [a]
+            t["label"] = task.get("label", "") + "|dev@%d=%s" % (i, a)
+            t["cost"] = task.get("cost", 1) * (len(default) - i) / max(1, len(default))
+            out.append(t)
+    return out
+
+
 def explore(system, task, seed, prop, max_violations=3, deadline=None):
     """Run one task; returns dict(stats, violations, samples)."""
     cfg = task["cfg"]
@@ -289,12 +317,13 @@ def explore(system, task, seed, prop, max_violations=3, deadline=None):
         if ctx.terminal:
             break
     if not dead:
-        rec(
-            state,
-            len(path_ev),
-            task["k"] if mode == "dev" else 0,
-            nm,
-        )
+        budget0 = 0
+        if mode == "dev":
+            used = sum(1 for i, e in enumerate(path_ev) if e != default[i])
+            budget0 = task["k"] - used
+            if budget0 < 0:
+                raise HarnessError("dev-mode prefix uses more deviations than k")
+        rec(state, len(path_ev), budget0, nm)
     st["wall_task_s"] = 0
     return {
         "stats": dict(st),
